@@ -138,6 +138,15 @@ func KnownActive(id string) bool {
 	return false
 }
 
+// RepoPath resolves a path inside the checkout of poly under test (normally /repo).
+func RepoPath(rel string) string {
+	base := os.Getenv("VERIF_REPO")
+	if base == "" {
+		base = "/repo"
+	}
+	return filepath.Join(base, rel)
+}
+
 // WorkDir is a per-process scratch directory under /verif/.work.
 func WorkDir() string {
 	base := os.Getenv("VERIF_WORK")
